@@ -470,7 +470,7 @@ theorem shot_sim (syms : List Str) (entries : List Entry) (s : HState) (k : Nat)
     simp only [embed, step, lookup, Method.step, toOld]
     rw [hc.2]
     have ts := tail_sim syms entries { s with exports := (getOrCreate s.exports (pkg, raw) (pkg, bracket raw)).1 }
-      ⟨2, pkg, raw, false, m⟩ true (objName pkg (bracket raw) m) k (by simp [keyName]) hM
+      ⟨2, pkg, raw, false, m⟩ true (objName (Method.symPrefix pkg) (bracket raw) m) k (by simp [keyName]) hM
     refine ⟨ts.1, ts.2.1, ⟨?_, ?_⟩, ts.2.2.2.2⟩
     · rw [ts.2.2.1]; exact hC.1
     · rw [ts.2.2.2.1]; exact hc.1
